@@ -181,7 +181,7 @@ def run(chk):
                        "ekore.anomalous_dimensions.unpolarized.space_like:gamma_ns_qed", "ekore.anomalous_dimensions.unpolarized.space_like:gamma_singlet_qed",
                        "ekore.anomalous_dimensions.unpolarized.space_like:gamma_valence_qed", "eko.evolution_operator:Operator.compute_aem_list",
                        "eko.couplings:Couplings.compute_exact_alphaem_running", "eko.couplings:Couplings.compute_exact_fixed_alphaem", "eko.couplings:couplings_expanded_alphaem_running",
-                       "eko.couplings:couplings_expanded_fixed_alphaem", "eko.evolution_operator.operator_matrix_element:OperatorMatrixElement.__init__",
+                       "eko.couplings:couplings_expanded_fixed_alphaem", "eko.couplings:Couplings.a", "eko.evolution_operator.operator_matrix_element:OperatorMatrixElement.__init__",
                        "eko.evolution_operator.quad_ker:build_ome", "eko.runner.parts:match")
     chk.trust("numerical kernels below the dispatchers are functions of exactly the arguments they receive (opaque results; a tainted argument handed to one of them counts as a read)",
               "settings that are read but provably without effect, and the couplings clause (two code paths), are equalities over the reals (A1), not bit patterns")
@@ -381,6 +381,24 @@ def run(chk):
         chk.eq_array(f"C55.couplings.exact[order={order}]", np.array(res[0][0], dtype=object), np.array(res[1][0], dtype=object), fn="eko.couplings:Couplings.compute_exact_alphaem_running", replay=rp,
                      goal="order[1] == 0: both branches return the same (a_s, a_em) -- same RGE routine, same arguments", assumptions=hyp, ranges=RG)
         chk.ground(f"C55.couplings.exact[order={order}].solver_settings", res[0][1] == res[1][1], fn="eko.couplings:Couplings.compute_exact_alphaem_running", replay=rp, goal="same integration method and tolerance in both branches")
+
+    # Couplings.a: the walk along the flavour path (incl. the split of a segment at the tau mass) must not depend on the running flag without QED
+    from eko import matchings, constants
+    for order in ((1, 0), (2, 0), (3, 0), (4, 0)):
+        for (q2, nfto) in ((Q(5, 2), 4), (Q(5, 2), 3), (Q(40), 5), (Q(3), 4), (Q(100000), 6)):
+            res = []
+            for running in (True, False):
+                c = object.__new__(cpl.Couplings)
+                c.order, c.method, c.alphaem_running, c.decoupled_running, c.cache = order, "expanded", running, False, {}
+                c.a_ref = np.array([T.var("as_ref"), T.var("aem_ref")], dtype=object)
+                c.thresholds_ratios = [Q(1), Q(1), Q(1)]
+                c.atlas = matchings.Atlas([Q(2), Q(81, 4), Q(30000)], (Q(8317), 5))
+                c.hqm_scheme = "POLE"
+                # contract of compute for order[1] == 0 (clauses above): a function of (a_ref, nf, scale_from, scale_to) -- independent of the lepton number and of the flag
+                c.compute = lambda a_ref, nf, nl, sfrom, sto: np.array([opaque("compute_as", [a_ref[0], nf, sfrom, sto]), a_ref[1]], dtype=object)
+                res.append(np.array(list(c.a(q2, nfto)), dtype=object))
+            chk.eq_array(f"C55.couplings.path_walk[order={order},target=({q2},{nfto})]", res[0], res[1], fn="eko.couplings:Couplings.a", replay=rp,
+                         goal="order[1] == 0: Couplings.a walks the same segments (no split at the tau mass) with the running flag on and off", assumptions=hyp, ranges=RG)
 
     # ---- (d) matching ---------------------------------------------------------------------------------------------------------------------------
     man = type("M", (), {})()
